@@ -79,6 +79,7 @@ type Term struct {
 	B    *bool    // constant boolean
 	R    *big.Rat // constant real value
 	F    *float64 // constant binary64 value
+	Conj []Term   // for conjunctions: the conjuncts (used to split proof goals)
 }
 
 func (t Term) String() string { return t.S }
@@ -163,7 +164,9 @@ func And(ts ...Term) Term {
 	case 1:
 		return keep[0]
 	}
-	return App(SBool, "and", keep...)
+	t := App(SBool, "and", keep...)
+	t.Conj = keep
+	return t
 }
 func Or(ts ...Term) Term {
 	var keep []Term
